@@ -94,6 +94,9 @@ func NewCtx(prop, tier string, seed int64, shard, n int, deadline time.Time) *Ct
 	return c
 }
 
+// Violations returns what has been recorded so far (used by replays that re-run a small family).
+func (c *Ctx) Violations() []Violation { return c.res.Violations }
+
 func (c *Ctx) Thorough() bool { return c.Tier == "thorough" }
 
 // Mine tells whether the case with running index i belongs to this shard. Every universe is
